@@ -483,6 +483,76 @@ def run(name, f, args):
 
 
 # ------------------------------------------------------------------ known layout-dependent behaviours
-def classify_layout_failure(case, detail):
+def _strip_dtypes(r):
+    """canonical result with dtype tokens blanked (values compared as tokens only)"""
+    if not (isinstance(r, tuple) and r and r[0] == 'ok'):
+        return r
+    c = r[1]
+    if isinstance(c, tuple) and c and c[0] == 'Frame':
+        cols = tuple(('', v) for _, v in c[4])
+        return ('ok', c[:4] + (cols,) + c[5:])
+    if isinstance(c, tuple) and c and c[0] == 'Series':
+        return ('ok', c[:3] + ('',) + c[4:])
+    return r
+
+
+def _values_equiv(ra, rb):
+    """Frames/Series with identical labels whose cells are equal up to the object-conversion of the
+    same value (datetime64 <-> date, NaT <-> None, numeric widening)"""
+    a, b = _strip_dtypes(ra)[1], _strip_dtypes(rb)[1]
+    if a == b:
+        return True
+    if not (isinstance(a, tuple) and isinstance(b, tuple) and a and b and a[0] == b[0]):
+        return False
+    if a[0] == 'Frame':
+        if a[:4] != b[:4] or a[5:] != b[5:] or len(a[4]) != len(b[4]):
+            return False
+        return all(_num_equal_tokens(x[1], y[1]) for x, y in zip(a[4], b[4]))
+    if a[0] == 'Series':
+        return a[1] == b[1] and a[4:] == b[4:] and _num_equal_tokens(a[2], b[2])
+    return False
+
+
+def _num_equal_tokens(a, b):
+    """token tuples equal up to numeric widening / bool<->int (values compare == in Python)"""
+    from sfv.props.c04 import cell_equal
+    return len(a) == len(b) and all(cell_equal(x, y) or _boolnum(x, y) for x, y in zip(a, b))
+
+
+def _boolnum(x, y):
+    try:
+        vx, vy = untok(x), untok(y)
+        return bool(vx == vy)
+    except Exception:
+        return False
+
+
+def classify_layout_difference(case, ra, rb):
     """Map a two-layout difference to a recorded finding id (findings/C03.json) or None."""
+    name, args = case['op'], case['args']
+    rows = case['spec']['rows']
+    if ra[0] == rb[0] == 'ok' and _values_equiv(ra, rb):
+        # identical labels and cell values; only per-column dtypes differ: whole-block retyping
+        if name == 'assign_bloc_elem':
+            return 'F19'
+        if name in ('fillna', 'fillna_forward', 'fillna_backward', 'fillna_leading', 'fillna_trailing'):
+            return 'F35'
+        if name in ('astype_cols', 'astype_all') and args[-1] == 'str':
+            return 'F33'
+    if name == 'bloc' and ra[0] == rb[0] == 'ok':
+        a, b = ra[1], rb[1]
+        if a[0] == b[0] == 'Series' and sorted(zip(a[1], a[2])) == sorted(zip(b[1], b[2])):
+            return 'F20'  # same (label, value) pairs, order depends on layout
+    if name == 'reduce' and args[1] == 0:
+        fn, skipna = args[0], args[2]
+        if rows == 1 and fn in ('mean', 'median', 'std', 'var') and 'err' in (ra[0], rb[0]):
+            return 'F17'
+        if rows == 1 and not skipna and fn in ('sum', 'prod', 'min', 'max'):
+            return 'F16'
+        if ra[0] == rb[0] == 'ok' and ra[1][0] == rb[1][0] == 'Series' and ra[1][1] == rb[1][1] and _num_equal_tokens(ra[1][2], rb[1][2]):
+            return 'F18'  # same values, result dtype depends on layout
+        if ra[0] == rb[0] == 'err':
+            return 'F17'  # error class depends on layout (ValueError vs TypeError)
+        if fn in ('sum', 'cumsum') and ra[0] == rb[0] == 'ok' and any(c['dt'] == 'str' for c in case['spec']['cols']):
+            return 'F34'  # concatenation of strings truncated to the block's fixed width
     return None
